@@ -1,7 +1,7 @@
 /-
 C04 interleaving layer: machinery for checking an inductive invariant given as an explicit table.
 
-For each of the 192 configurations (96 of the code as it stands, 96 with the F4 patch protocol) `Proofs/C04_RaceTable.lean` lists the (mixed-radix) codes of the
+For each of the 96 configurations `Proofs/C04_RaceTable.lean` lists the (mixed-radix) codes of the
 reachable states of `Model/C04_Race.lean`. Nothing about the table is trusted: `checkCfg` (evaluated
 by the kernel in `Proofs/C04_RaceCheck*.lean`) verifies that the decoded table contains the initial
 state and is closed under both threads' steps, and evaluates the safety predicates on every member.
@@ -44,20 +44,20 @@ def decTRes : Nat → TRes | 0 => .none | 1 => .skipped | 2 => .notFound | 3 => 
 
 /-- mixed-radix code of a state (least significant field first) -/
 def code : St → Nat
-  | ⟨⟨ser, l0, pre, old, pop, top, pa⟩, pcP, pcT, locA, locB, aT, fdP, fdT, fA, fB, mu, wP, wT, rP, rT⟩ =>
+  | ⟨⟨ser, l0, pre, old, pop, top⟩, pcP, pcT, locA, locB, aT, fdP, fdT, fA, fB, mu, wP, wT, rP, rT⟩ =>
     encB ser + 2 * (encB l0 + 2 * (encPre pre + 3 * (encB old + 2 * (encPOp pop + 2 * (encTOp top + 2 * (
     encPPC pcP + 18 * (encTPC pcT + 8 * (encLoc locA + 5 * (encLoc locB + 5 * (encB aT + 2 * (
     encOI fdP + 3 * (encOI fdT + 3 * (encOT fA + 3 * (encOT fB + 3 * (encOT mu + 3 * (
-    encB wP + 2 * (encB wT + 2 * (encPRes rP + 4 * (encTRes rT + 6 * encB pa)))))))))))))))))))
+    encB wP + 2 * (encB wT + 2 * (encPRes rP + 4 * encTRes rT))))))))))))))))))
 
 def decode (n : Nat) : St :=
   let n0 := n
   let n1 := n0 / 2; let n2 := n1 / 2; let n3 := n2 / 3; let n4 := n3 / 2; let n5 := n4 / 2; let n6 := n5 / 2
   let n7 := n6 / 18; let n8 := n7 / 8; let n9 := n8 / 5; let n10 := n9 / 5; let n11 := n10 / 2
   let n12 := n11 / 3; let n13 := n12 / 3; let n14 := n13 / 3; let n15 := n14 / 3; let n16 := n15 / 3
-  let n17 := n16 / 2; let n18 := n17 / 2; let n19 := n18 / 4; let n20 := n19 / 6
+  let n17 := n16 / 2; let n18 := n17 / 2; let n19 := n18 / 4
   { cfg := { serialize := decB (n0 % 2), life0 := decB (n1 % 2), pre := decPre (n2 % 3), ageOld := decB (n3 % 2),
-             pop := decPOp (n4 % 2), top := decTOp (n5 % 2), patched := decB (n20 % 2) }
+             pop := decPOp (n4 % 2), top := decTOp (n5 % 2) }
     pcP := decPPC (n6 % 18), pcT := decTPC (n7 % 8), locA := decLoc (n8 % 5), locB := decLoc (n9 % 5)
     aTouched := decB (n10 % 2), fdP := decOI (n11 % 3), fdT := decOI (n12 % 3), flockA := decOT (n13 % 3)
     flockB := decOT (n14 % 3), mutex := decOT (n15 % 3), waitP := decB (n16 % 2), waitT := decB (n17 % 2)
@@ -71,8 +71,8 @@ theorem forceNat_eq {α : Type} (n : Nat) (k : Nat → α) : forceNat n k = k n 
 /-- evaluate `s` to constructor form before using it -/
 def withForced {α : Type} (s : St) (k : St → α) : α :=
   match s with
-  | ⟨⟨ser, l0, pre, old, pop, top, pa⟩, pcP, pcT, locA, locB, aT, fdP, fdT, fA, fB, mu, wP, wT, rP, rT⟩ =>
-    k ⟨⟨ser, l0, pre, old, pop, top, pa⟩, pcP, pcT, locA, locB, aT, fdP, fdT, fA, fB, mu, wP, wT, rP, rT⟩
+  | ⟨⟨ser, l0, pre, old, pop, top⟩, pcP, pcT, locA, locB, aT, fdP, fdT, fA, fB, mu, wP, wT, rP, rT⟩ =>
+    k ⟨⟨ser, l0, pre, old, pop, top⟩, pcP, pcT, locA, locB, aT, fdP, fdT, fA, fB, mu, wP, wT, rP, rT⟩
 
 theorem withForced_eq {α : Type} (s : St) (k : St → α) : withForced s k = k s := rfl
 
@@ -116,10 +116,6 @@ def ackSafe (s : St) : Bool := !s.acked || s.protected
 /-- Volume contract (volume.go): not both "Touch succeeded" and "Trash trashed" -/
 def contract (s : St) : Bool := !(s.resP = .okTouch && s.resT = .trashed)
 
-/-- the only configurations in which an acknowledged PUT can be lost (finding F4): the code as it
-stands (no flock in WriteBlock), Serialize off, a pre-existing old corrupt copy, PUT -/
-def riskyCfg (c : Cfg) : Bool := !c.patched && !c.serialize && c.pre = .corrupt && c.pop = .put && c.ageOld
-
 def finished (s : St) : Bool := s.pcP = .done && s.pcT = .done
 
 def rankP : PPC → Nat
@@ -132,7 +128,7 @@ def rank (s : St) : Nat := rankP s.pcP + rankT s.pcT
 
 /-- per-state obligations -/
 def okLocal (c : Cfg) (s : St) : Bool :=
-  decide (s.cfg = c) && contract s && (riskyCfg c || ackSafe s)
+  decide (s.cfg = c) && contract s && ackSafe s
     && (finished s || decide (rank (stepT (stepP s)) < rank s))
 
 def checkCfg (c : Cfg) (R : List Nat) : Bool :=
@@ -168,21 +164,20 @@ theorem checkCfg_run {c : Cfg} {R : List Nat} (h : checkCfg c R = true) :
 
 /-! ### configurations and their table rows -/
 
-def cfgGroup (pa ser l0 : Bool) : List Cfg :=
+def cfgGroup (ser l0 : Bool) : List Cfg :=
   [Pre.absent, Pre.good, Pre.corrupt].flatMap fun pre => [false, true].flatMap fun old =>
   [POp.touch, POp.put].flatMap fun pop => [TOp.del, TOp.ti].map fun top =>
-  { serialize := ser, life0 := l0, pre := pre, ageOld := old, pop := pop, top := top, patched := pa }
+  { serialize := ser, life0 := l0, pre := pre, ageOld := old, pop := pop, top := top }
 
 def allCfgs : List Cfg :=
-  [false, true].flatMap fun pa => [false, true].flatMap fun ser => [false, true].flatMap fun l0 => cfgGroup pa ser l0
+  [false, true].flatMap fun ser => [false, true].flatMap fun l0 => cfgGroup ser l0
 
 def cfgIdx (c : Cfg) : Nat :=
-  (((((encB c.patched * 2 + encB c.serialize) * 2 + encB c.life0) * 3 + encPre c.pre) * 2 + encB c.ageOld) * 2
-    + encPOp c.pop) * 2 + encTOp c.top
+  ((((encB c.serialize * 2 + encB c.life0) * 3 + encPre c.pre) * 2 + encB c.ageOld) * 2 + encPOp c.pop) * 2 + encTOp c.top
 
-theorem mem_cfgGroup (c : Cfg) : c ∈ cfgGroup c.patched c.serialize c.life0 := by
+theorem mem_cfgGroup (c : Cfg) : c ∈ cfgGroup c.serialize c.life0 := by
   cases c with
-  | mk ser l0 pre old pop top pa =>
-    cases pa <;> cases ser <;> cases l0 <;> cases pre <;> cases old <;> cases pop <;> cases top <;> decide
+  | mk ser l0 pre old pop top =>
+    cases ser <;> cases l0 <;> cases pre <;> cases old <;> cases pop <;> cases top <;> decide
 
 end ArvVerif.C04.Race
